@@ -28,13 +28,13 @@ PROPS = {
                      "RemoveUnreachableStates / RemoveUselessStates / IsLangEmpty judged by equivM, allReachableB, allUsefulB, "
                      "emptyM and compared exactly with the models; non-trivial = some rule dropped by one of the operations",
                 assumptions=PROOF_ASSUME),
-    "C04": dict(level="proof", cli=dict(kinds=[("cliop_c04", 1)], quick=150, thorough=4000), kinds=[("simdown", 1), ("simup", 1)], n=dict(quick=3000, thorough=300000, search=4000),
+    "C04": dict(level="proof", cli=dict(kinds=[("cliop_c04", 1)], quick=150, thorough=4000), kinds=[("simdown", 12), ("simup", 12), ("binrel", 1)], n=dict(quick=3120, thorough=300000, search=4000),
                 rule="automata numbered 0..n-1 in random order with n passed (downward: arbitrary, with useless and leaf-only "
                      "states; upward: trimmed by construction, precondition re-checked by the driver); the relation read back "
                      "with get(q,r) on all states is compared exactly with the greatest downward / upward simulation computed "
                      "by naive refinement; non-trivial = relation strictly between identity and full",
                 assumptions=PROOF_ASSUME),
-    "C05": dict(level="proof", cli=dict(kinds=[("cliop_c05", 1)], quick=150, thorough=4000), kinds=[("reduce", 1)], n=dict(quick=3000, thorough=300000, search=4000),
+    "C05": dict(level="proof", cli=dict(kinds=[("cliop_c05", 1)], quick=150, thorough=4000), kinds=[("reduce", 24), ("binrel", 1)], n=dict(quick=3120, thorough=300000, search=4000),
                 rule="automata with duplicated (simulation-equivalent) states, sparse numbers, useless states; Reduce judged by "
                      "equivM, the two counts and states ⊆; non-trivial = the number of states decreased",
                 assumptions=PROOF_ASSUME),
@@ -73,7 +73,7 @@ PROPS = {
                      "emptyW (proved), every live automaton re-read after every step; non-trivial = some product or witness "
                      "non-empty",
                 assumptions=PROOF_ASSUME),
-    "C16": dict(level="proof", kinds=[("lts", 1)], n=dict(quick=4000, thorough=200000, search=4000),
+    "C16": dict(level="proof", kinds=[("lts", 24), ("binrel", 1)], n=dict(quick=4160, thorough=200000, search=4000),
                 rule="LTSs with 1–8 states (12 %: 13–30 states so that the engine's counter rows, block splits and remove "
                      "lists are exercised), 1–4 labels, parallel edges, isolated states, labels with one edge; random "
                      "partitions into non-empty blocks with random preorders (reflexive-transitive closures) on the blocks; all "
@@ -122,7 +122,7 @@ PROPS = {
                      "operation histories, with the NFA start states also read through the API; the watchdog and the "
                      "sanitizers watch for hangs and memory errors; non-trivial = the text is accepted by the parser",
                 assumptions=PROOF_ASSUME),
-    "C19": dict(level="proof", kinds=[("meta", 6), ("metaf", 1)], n=dict(quick=1000, thorough=20000, search=1000), timeout=240,
+    "C19": dict(level="proof", kinds=[("meta", 6), ("metaf", 1)], n=dict(quick=1000, thorough=8000, search=1000), timeout=240,
                 rule="metamorphic runs on generated pairs AND on shipped corpus automata (tests/aut_timbuk_smaller with its 400 "
                      "expected verdicts, small_timbuk, moderate_artmc_timbuk, artmc_timbuk; no brute-force reference exists for "
                      "them): each pair and a twin pair (random bijective renaming onto sparse numbers, shuffled rule insertion "
